@@ -609,6 +609,240 @@ example : Causal exRows exRows [] [exK, exS] := by
   · intro r hr; simp only [List.mem_cons, List.not_mem_nil, or_false] at hr; rcases hr with rfl | rfl <;> decide
   · intro r hr; simp only [List.mem_cons, List.not_mem_nil, or_false] at hr; rcases hr with rfl | rfl <;> intro h <;> simp [exK, exS] at h
 
+/-! ### every edge joins nodes of analysed events -/
+
+/-- Both endpoints of a descriptor are nodes of analysed events. -/
+def DescNodesOK (clipped : List Row) (d : Desc) : Prop :=
+  hasNodeIn clipped d.src.ev = true ∧ hasNodeIn clipped d.dst.ev = true
+
+structure DfsNodesInv (clipped : List Row) (s : DS) : Prop where
+  last : ∀ n, s.lastNode = some n → hasNodeIn clipped n.ev = true
+  high : ∀ n, s.lastHigh = some n → hasNodeIn clipped n.ev = true
+
+theorem dfsStep_nodes (clipped : List Row) (parent : Int → Int) (blocking : Int → Bool) (s : DS) (t : C03.Tok)
+    (inv : DfsNodesInv clipped s) :
+    DfsNodesInv clipped (dfsStep (hasNodeIn clipped) parent blocking s t).1 ∧
+    ∀ d ∈ (dfsStep (hasNodeIn clipped) parent blocking s t).2, DescNodesOK clipped d := by
+  unfold dfsStep
+  split
+  · refine ⟨⟨?_, ?_⟩, by intro d hd; cases hd⟩
+    · intro n h
+      have h' : s.lastNode = some n := by split at h <;> exact h
+      exact inv.last n h'
+    · intro n h
+      have h' : s.lastHigh = some n := by split at h <;> exact h
+      exact inv.high n h'
+  · rename_i hne
+    have hnode : hasNodeIn clipped t.idx = true := by simpa using hne
+    split
+    · refine ⟨⟨?_, ?_⟩, ?_⟩
+      · intro n h; simp at h; subst h; exact hnode
+      · intro n h; exact inv.high n h
+      · intro d hd
+        simp only [List.mem_append] at hd
+        rcases hd with hd | hd
+        · cases hdp : s.depth <;> cases hh : s.lastHigh <;> simp [hdp, hh] at hd
+          subst hd
+          exact ⟨inv.high _ hh, hnode⟩
+        · cases hln : s.lastNode <;> simp [hln] at hd
+          subst hd
+          exact ⟨inv.last _ hln, hnode⟩
+    · have hspan : ∀ d ∈ (match s.lastNode with
+          | some ln => [(⟨ln, ⟨t.idx, false⟩, .op, blocking t.idx, s.lastPar⟩ : Desc)]
+          | none => []), DescNodesOK clipped d := by
+        intro d hd
+        cases hln : s.lastNode <;> simp [hln] at hd
+        subst hd
+        exact ⟨inv.last _ hln, hnode⟩
+      simp only []
+      split
+      · refine ⟨⟨by intro n h; simp at h, ?_⟩, hspan⟩
+        intro n h; simp at h; subst h; exact hnode
+      · refine ⟨⟨?_, fun n h => inv.high n h⟩, hspan⟩
+        intro n h; simp at h; subst h; exact hnode
+
+theorem dfsRun_nodes (clipped : List Row) (parent : Int → Int) (blocking : Int → Bool) (toks : List C03.Tok)
+    (s : DS) (inv : DfsNodesInv clipped s) :
+    ∀ d ∈ dfsRun (hasNodeIn clipped) parent blocking s toks, DescNodesOK clipped d := by
+  induction toks generalizing s with
+  | nil => intro d hd; cases hd
+  | cons t ts ih =>
+    obtain ⟨hinv, hok⟩ := dfsStep_nodes clipped parent blocking s t inv
+    intro d hd
+    simp only [dfsRun, List.mem_append] at hd
+    rcases hd with hd | hd
+    · exact hok d hd
+    · exact ih _ hinv d hd
+
+
+
+theorem ksEndOf_hasNode {clipped : List Row} {ks : KSync} {i : Int} {n : NodeId}
+    (h : ksEndOf clipped ks i = some n) : hasNodeIn clipped n.ev = true := by
+  unfold ksEndOf at h
+  split at h
+  · split at h
+    · rename_i hn; simp at h; subst h; exact hn
+    · cases h
+  · cases h
+
+theorem eventStep_nodes (rows clipped : List Row) (ws : Waits) (st : KState) (r : Row) :
+    (eventStep rows clipped ws st r).1.last = st.last ∧
+    ∀ d ∈ (eventStep rows clipped ws st r).2, DescNodesOK clipped d := by
+  unfold eventStep
+  split
+  · exact ⟨rfl, by intro d hd; cases hd⟩
+  · split
+    · split
+      · split
+        · exact ⟨rfl, by intro d hd; cases hd⟩
+        · split
+          · exact ⟨rfl, by intro d hd; cases hd⟩
+          · exact ⟨rfl, by intro d hd; cases hd⟩
+      · exact ⟨rfl, by intro d hd; cases hd⟩
+    · split
+      · rename_i hc
+        refine ⟨rfl, ?_⟩
+        intro d hd
+        simp only [List.mem_singleton] at hd
+        subst hd
+        simp only [Bool.and_eq_true] at hc
+        exact ⟨hc.1, hc.2⟩
+      · exact ⟨rfl, by intro d hd; cases hd⟩
+
+/-- One step of the kernel loop only joins nodes of analysed events, provided the row itself is
+analysed when it is a device activity. -/
+theorem kernelStep_nodes (rows clipped : List Row) (ws : Waits) (q : Int → Option Int) (zl : Bool)
+    (st : KState) (r : Row)
+    (inv : ∀ x ∈ st.last, hasNodeIn clipped x.2.ev = true)
+    (hrow : (r.cat == "cuda_sync") = false → hasNodeIn clipped r.idx = true) :
+    (∀ x ∈ (kernelStep rows clipped ws q zl st r).1.last, hasNodeIn clipped x.2.ev = true) ∧
+    ∀ d ∈ (kernelStep rows clipped ws q zl st r).2, DescNodesOK clipped d := by
+  unfold kernelStep
+  simp only []
+  split
+  · split
+    · obtain ⟨h1, h2⟩ := eventStep_nodes rows clipped ws st r
+      exact ⟨by rw [h1]; exact inv, h2⟩
+    · split
+      · rename_i hcond
+        refine ⟨inv, ?_⟩
+        intro d hd
+        obtain ⟨n, hn, rfl⟩ := List.mem_map.mp hd
+        simp only [Bool.and_eq_true] at hcond
+        refine ⟨?_, hcond.2⟩
+        split at hn
+        · obtain ⟨x, hx, rfl⟩ := List.mem_map.mp hn
+          exact inv x hx
+        · cases hl : lastOn st.last r.stream with
+          | none => simp [hl] at hn
+          | some m =>
+            simp [hl] at hn; subst hn
+            exact inv _ (lastOn_mem hl)
+      · exact ⟨inv, by intro d hd; cases hd⟩
+  · rename_i hcat
+    have hr : hasNodeIn clipped r.idx = true := hrow (by simpa using hcat)
+    generalize hke : ksEndOf clipped st.ksync r.idx = ke
+    constructor
+    · intro x hx
+      rcases mem_setLast hx with rfl | hx
+      · exact hr
+      · exact inv x hx
+    · intro d hd
+      simp only [List.mem_append, List.mem_singleton] at hd
+      rcases hd with ((hd | hd) | hd) | hd
+      · subst hd; exact ⟨hr, hr⟩
+      · cases ke with
+        | none => simp at hd
+        | some n =>
+          simp only [List.mem_singleton] at hd
+          subst hd
+          exact ⟨ksEndOf_hasNode hke, hr⟩
+      · rcases mem_ite_cases hd with ⟨hc, hd⟩ | ⟨_, hd⟩
+        · simp only [List.mem_singleton] at hd; subst hd
+          simp only [Bool.and_eq_true] at hc
+          exact ⟨hc.2, hr⟩
+        · cases hl : lastOn st.last r.stream with
+          | none => rw [hl] at hd; cases hd
+          | some n =>
+            rw [hl] at hd
+            rcases mem_if hd with hd | hd
+            · simp only [List.mem_singleton] at hd; subst hd
+              exact ⟨inv _ (lastOn_mem hl), hr⟩
+            · cases hd
+      · rcases mem_ite_cases hd with ⟨hc, hd⟩ | ⟨_, hd⟩
+        · simp only [List.mem_singleton] at hd; subst hd
+          simp only [Bool.and_eq_true] at hc
+          exact ⟨hc.2, hr⟩
+        · cases hd
+
+theorem kernelRun_nodes (rows clipped : List Row) (ws : Waits) (q : Int → Option Int) (zl : Bool)
+    (ks : List Row) (st : KState)
+    (inv : ∀ x ∈ st.last, hasNodeIn clipped x.2.ev = true)
+    (hrows : ∀ r ∈ ks, (r.cat == "cuda_sync") = false → hasNodeIn clipped r.idx = true) :
+    ∀ d ∈ kernelRun rows clipped ws q zl st ks, DescNodesOK clipped d := by
+  induction ks generalizing st with
+  | nil => intro d hd; cases hd
+  | cons r rs ih =>
+    obtain ⟨h1, h2⟩ := kernelStep_nodes rows clipped ws q zl st r inv (hrows r List.mem_cons_self)
+    intro d hd
+    simp only [kernelRun, List.mem_append] at hd
+    rcases hd with hd | hd
+    · exact h2 d hd
+    · exact ih _ h1 (fun x hx => hrows x (List.mem_cons_of_mem _ hx)) d hd
+
+
+
+theorem threadDescs_nodes (clipped : List Row) (t : Int × Int) :
+    ∀ d ∈ threadDescs clipped t, DescNodesOK clipped d := by
+  unfold threadDescs
+  simp only []
+  split
+  · intro d hd; cases hd
+  · exact dfsRun_nodes clipped _ _ _ _ ⟨(by intro n h; cases h), (by intro n h; cases h)⟩
+
+theorem kernelRows_hasNode (rows clipped : List Row)
+    (hids : ∀ r ∈ clipped, findRow clipped r.idx = some r)
+    (hnames : ∀ r ∈ clipped, (r.name == "Event Sync" || r.name == "Context Sync") = true → (r.cat == "cuda_sync") = true) :
+    ∀ r ∈ kernelRows rows clipped, (r.cat == "cuda_sync") = false → hasNodeIn clipped r.idx = true := by
+  intro r hr hcat
+  unfold kernelRows at hr
+  simp only [] at hr
+  have hr' := (List.mem_mergeSort).mp hr
+  obtain ⟨hmem, hcond⟩ := List.mem_filter.mp hr'
+  simp only [Bool.and_eq_true, Bool.or_eq_true, decide_eq_true_eq] at hcond
+  have hstream : (r.stream != -1) = true := by
+    rcases hcond.1 with (h | h) | h
+    · exact h
+    · have := hnames r hmem (by simp [h]); rw [hcat] at this; cases this
+    · have := hnames r hmem (by simp [h]); rw [hcat] at this; cases this
+  unfold hasNodeIn
+  rw [hids r hmem]
+  simp only [Option.map_some, Option.getD_some, hasNode, Bool.or_eq_true, Bool.and_eq_true, decide_eq_true_eq]
+  right
+  exact ⟨hstream, hcond.2⟩
+
+/-- **Every edge joins nodes of analysed events**: both endpoints of every edge of the graph are the
+start or end node of an event of the analysed window that has nodes (`C08_nodes_two_per_event`),
+for every frame with unique event ids in which the records named `Event Sync` / `Context Sync`
+carry the synchronisation category. -/
+theorem C08_edges_join_analysed_events (rows : List Row) (ws : Waits) (w : Int × Int) (zl : Bool)
+    (hids : ∀ r ∈ clip rows w, findRow (clip rows w) r.idx = some r)
+    (hnames : ∀ r ∈ clip rows w, (r.name == "Event Sync" || r.name == "Context Sync") = true → (r.cat == "cuda_sync") = true) :
+    ∀ e ∈ (build rows ws w zl).2.edges,
+      hasNodeIn (clip rows w) e.src.ev = true ∧ hasNodeIn (clip rows w) e.dst.ev = true := by
+  apply allEdges_applyAll (P := fun e => hasNodeIn (clip rows w) e.src.ev = true ∧ hasNodeIn (clip rows w) e.dst.ev = true)
+  · intro d hd
+    have : DescNodesOK (clip rows w) d := by
+      unfold descs at hd
+      rcases List.mem_append.mp hd with hd | hd
+      · obtain ⟨t, _, hdt⟩ := List.mem_flatMap.mp hd
+        exact threadDescs_nodes _ t d hdt
+      · exact kernelRun_nodes rows _ ws _ zl _ _ (by intro x hx; cases hx)
+          (kernelRows_hasNode rows _ hids hnames) d hd
+    exact this
+  · intro e he; cases he
+
+
 /-! ### what the CUDA-event tables stand for -/
 
 /-- **What an event stands for**: for a `cudaEventRecord` call whose stream is known, the model's
